@@ -667,11 +667,20 @@ func runBounded(bc BoundedCheck, repo, verif, tier string) (bool, string, float6
 	if tier == "thorough" {
 		timeout = "900s"
 	}
-	cmd := exec.Command("go", "test", "-overlay", ovFile, "-vet=off", "-count=1", "-timeout", timeout, "-run", bc.Run, "./"+rel)
-	cmd.Dir = repo
-	cmd.Env = append(goEnv(), "VERIF_TIER="+tier)
-	var out bytes.Buffer
-	cmd.Stdout, cmd.Stderr = &out, &out
-	err = cmd.Run()
-	return err == nil, out.String(), time.Since(t0).Seconds()
+	run := func(timeout string) (error, string) {
+		cmd := exec.Command("go", "test", "-overlay", ovFile, "-vet=off", "-count=1", "-timeout", timeout, "-run", bc.Run, "./"+rel)
+		cmd.Dir = repo
+		cmd.Env = append(goEnv(), "VERIF_TIER="+tier)
+		var out bytes.Buffer
+		cmd.Stdout, cmd.Stderr = &out, &out
+		err := cmd.Run()
+		return err, out.String()
+	}
+	err, out := run(timeout)
+	if err != nil && strings.Contains(out, "panic: test timed out") {
+		// a stand-in that ran out of time on a busy machine has found nothing: run it once more with a generous
+		// limit before anything is reported
+		err, out = run("1800s")
+	}
+	return err == nil, out, time.Since(t0).Seconds()
 }
